@@ -267,6 +267,25 @@ impl Store {
     /// To ensure that the data is persisted, acquire a snapshot of the database
     /// or call flush.
     fn modify<T>(&mut self, f: impl FnOnce(&mut Tables) -> Result<T>) -> Result<T> {
+        self.modify_impl(true, f)
+    }
+
+    /// Like [`Self::modify`], but never commits the open transaction first.
+    ///
+    /// For the write that completes an operation whose earlier steps already changed the tables:
+    /// an age-based commit at that point would persist a half-applied operation.
+    fn modify_same_transaction<T>(
+        &mut self,
+        f: impl FnOnce(&mut Tables) -> Result<T>,
+    ) -> Result<T> {
+        self.modify_impl(false, f)
+    }
+
+    fn modify_impl<T>(
+        &mut self,
+        may_commit: bool,
+        f: impl FnOnce(&mut Tables) -> Result<T>,
+    ) -> Result<T> {
         let guard = &mut self.transaction;
         let tables = match std::mem::take(guard) {
             CurrentTransaction::None => {
@@ -277,7 +296,7 @@ impl Store {
                 // verification hook: a check can make the open transaction look too old on demand
                 #[cfg(feature = "verif")]
                 let w = verif_incrate::commit_age::age(w);
-                if w.since.elapsed() > MAX_COMMIT_DELAY {
+                if may_commit && w.since.elapsed() > MAX_COMMIT_DELAY {
                     tracing::debug!("committing transaction because it's too old");
                     w.commit()?;
                     let tx = self.db.begin_write()?;
@@ -770,7 +789,8 @@ impl<'a> crate::ranger::Store<SignedEntry> for StoreInstance<'a> {
 
     fn entry_put(&mut self, e: SignedEntry) -> Result<()> {
         let id = e.id();
-        self.store.as_mut().modify(|tables| {
+        // `put` has already pruned the entries this one supersedes: stay in that transaction
+        self.store.as_mut().modify_same_transaction(|tables| {
             // insert into record table
             let key = (
                 &id.namespace().to_bytes(),
